@@ -144,12 +144,14 @@ class C12(Prop):
             return o
         if ty == "TXT":
             return ["(try_from (L))", "(try_from (L x))", "(try_from (L x61 x))", "(try_from (L %s))" % hx(b"a" * 300)]
+        uni = ["iss\u00fce".encode(), "ISSU\u00c9".encode(), "tag\u0663".encode(), "\uff11\uff12".encode(), "x\u00b2".encode(),
+               "\u01c5".encode(), "\uff41\uff26".encode(), "\u06f1".encode(), "1\u0969".encode()]
         if ty == "TAG":
-            return ["(try_from %s)" % hx(b) for b in (b"", b"issue", b"ISSUE", b"Issue9", b"is-sue", "é".encode(), b"a" * 300, b"a b")]
+            return ["(try_from %s)" % hx(b) for b in [b"", b"issue", b"ISSUE", b"Issue9", b"is-sue", "é".encode(), b"a" * 300, b"a b"] + uni]
         if ty in ("PSDN", "ISDNA"):
-            return ["(try_from %s)" % hx(b) for b in (b"", b"0", b"0123456789", b"12a", b"1 2", "١".encode(), b"+1")]
+            return ["(try_from %s)" % hx(b) for b in [b"", b"0", b"0123456789", b"12a", b"1 2", "١".encode(), b"+1"] + uni]
         if ty == "SA":
-            return ["(try_from %s)" % hx(b) for b in (b"", b"0", b"09afAF", b"g", b"0x", "é".encode())]
+            return ["(try_from %s)" % hx(b) for b in [b"", b"0", b"09afAF", b"g", b"0x", "é".encode()] + uni]
         raise AssertionError(ty)
 
     TYPES = ["ECS", "API", "COOKIE", "LABEL", "NAME", "TXT", "TAG", "PSDN", "ISDNA", "SA"]
